@@ -284,6 +284,14 @@ def encoding_runner(prop, family, directions, opts=None, audits=(), large=frozen
         cov["exhaustive"] = (tier == "thorough")
         if not replay:
             cov["binding_selftest"] = corruption_selftest(res)
+            # vacuity audit: how often TLC took each action of Timeline on (a sample of) this family
+            smp = problems if len(problems) <= 400 else F_tasks.sample(random.Random(seed), problems, 400)
+            acts, st_cov = tlc.timeline_action_coverage(F_tasks.number([json.loads(json.dumps(q)) for q in smp]))
+            cov["tlc_action_coverage"] = {"problems": len(smp), "states_produced_per_action": acts,
+                                          "never_taken": sorted(a for a, n in acts.items() if n == 0)}
+            core = [a for a in ("Init", "StartSome", "EndSome", "Tick", "Finish") if not acts.get(a)]
+            if core:
+                raise RuntimeError(f"vacuous family: TLC never took the action(s) {core}")
         if not replay and large:
             # beyond the exhaustive bounds: TLC simulation samples V(P) of larger random problems
             from families import large as F_large
